@@ -240,6 +240,66 @@ theorem C49_add_partial (step : UInt64 → Int → UInt64 × Int) (hs : Forward 
       simp only [pickServer, hlen, hi']
       exact hlast
 
+/-! ### histories of SetServers calls -/
+
+/-- the list of the last call that succeeded (the initial list when none did) -/
+def lastGood (cur : List String) : List SetCall → List String
+  | [] => cur
+  | .ok sorted :: rest => lastGood sorted rest
+  | .fail :: rest => lastGood cur rest
+
+/-- **all-or-nothing**: after any history of `SetServers` calls the selector holds exactly the list of
+    the last call that succeeded; failing calls (a name that does not resolve) leave no trace -/
+theorem runCalls_lastGood : ∀ (calls : List SetCall) (cur : List String), runCalls cur calls = lastGood cur calls
+  | [], _ => rfl
+  | .ok sorted :: rest, cur => by
+    simp only [runCalls, List.foldl_cons, setCall, lastGood]
+    exact runCalls_lastGood rest sorted
+  | .fail :: rest, cur => by
+    simp only [runCalls, List.foldl_cons, setCall, lastGood]
+    exact runCalls_lastGood rest cur
+
+/-- **placement is a function of the last successful list**: two selectors whose histories end with the
+    same successful call — whatever failing calls follow it, whatever came before — place every key on
+    the same server, single or batched -/
+theorem C49_history (step : UInt64 → Int → UInt64 × Int) (sorted : List String)
+    (before before' : List SetCall) (cur cur' : List String) (fails fails' : List SetCall)
+    (hf : ∀ c ∈ fails, c = .fail) (hf' : ∀ c ∈ fails', c = .fail) (h : UInt64)
+    (keys : List (String × UInt64)) :
+    pickServer step (runCalls cur (before ++ .ok sorted :: fails)) h =
+      pickServer step (runCalls cur' (before' ++ .ok sorted :: fails')) h ∧
+    pickForKeys step (runCalls cur (before ++ .ok sorted :: fails)) keys =
+      pickForKeys step (runCalls cur' (before' ++ .ok sorted :: fails')) keys := by
+  have key : ∀ (b : List SetCall) (c : List String) (fs : List SetCall), (∀ x ∈ fs, x = SetCall.fail) →
+      runCalls c (b ++ .ok sorted :: fs) = sorted := by
+    intro b c fs hfs
+    rw [runCalls_lastGood]
+    induction b generalizing c with
+    | nil =>
+      simp only [List.nil_append, lastGood]
+      clear c
+      induction fs with
+      | nil => rfl
+      | cons x xs ih =>
+        have hx : x = .fail := hfs x (by simp)
+        subst hx
+        simp only [lastGood]
+        exact ih (fun y hy => hfs y (by simp [hy]))
+    | cons x xs ih =>
+      cases x with
+      | ok s' => simp only [List.cons_append, lastGood]; exact ih s'
+      | fail => simp only [List.cons_append, lastGood]; exact ih c
+  rw [key before cur fails hf, key before' cur' fails' hf']
+  exact ⟨rfl, rfl⟩
+
+/-- Regenerated obligation: `SetServers` builds the new list in a FRESH slice (`make`), fills it in the
+    loop (the only early return is inside the loop, before anything of the selector is touched),
+    and only after the loop takes the lock and installs it — so a failing call cannot change what
+    lookups see (`setCall … .fail = cur`). -/
+theorem C49_build_fact : Thanos.Facts.setServersBuild =
+    ["naddr := make([]net.Addr, len(servers))", "range sortedServers", "naddr[i], err = parseStaticAddr(server)",
+     "return in loop", "end range", "s.mu.Lock", "s.mu.Unlock", "s.addrs = naddr"] := by decide
+
 /-- Regenerated obligation: `SetServers` sorts lexically before it sorts naturally (so
     `setServers` is the model of the code as it is now and `C49_perm` its theorem). -/
 theorem C49_sort_order_fact : Thanos.Facts.setServersSortCalls = ["sort.Strings", "natsort.Sort"] := by decide
@@ -252,6 +312,7 @@ example : pickServer (fun k b => (k, if b = 0 then 1 else b + 5)) (insertAt ["b"
 example : pickForKeys (fun k b => (k, if b = 0 then 1 else b + 5)) ["b", "c"] [("k1", 0), ("k2", 1)] =
     some [("c", [("k1", 0), ("k2", 1)])] := by decide
 example : (ratStep 12345 0).2 = 1 := by decide
+example : runCalls [] [.ok ["a", "b"], .fail, .ok ["a", "c"], .fail, .fail] = ["a", "c"] := by decide
 example : applyPerm [1, 0, 2] ["a10", "a2", "b"] = some ["a2", "a10", "b"] := by decide
 example : ["b", "a10", "a2"].Perm ["a2", "b", "a10"] := by decide
 
